@@ -101,6 +101,8 @@ def labels(ctx, spec):
             ctx.label("explicit_bounds_differ_from_chunk")
     if spec.get("genome"):
         ctx.label("with_sequence")
+    if spec.get("memberless"):
+        ctx.label("collection_without_genes_and_features")
     if spec.get("case_variant_keys"):
         ctx.label("qualifier_keys_differing_in_case_only")
     ctx.label("kind:" + kind)
@@ -188,6 +190,16 @@ def check_roundtrip(spec, ctx):
         ctx.label("export_parent")
         y2 = AnnotationCollection.from_dict(copy.deepcopy(d))
         same_object(ctx, "dict_roundtrip_export_parent", x, y2, with_seq)
+        # the exported document (parent included) is the caller's: imported twice without a copy it stays as exported and gives the
+        # same collection both times
+        snap_p = copy.deepcopy(d)
+        try:
+            AnnotationCollection.from_dict(d)
+            y2b = AnnotationCollection.from_dict(d)
+            same_object(ctx, "second_import_of_the_same_dict_with_parent", x, y2b, with_seq)
+        except Exception as e:
+            ctx.fail("second_import_of_the_same_dict_with_parent_raises", repr(e)[:120])
+        ctx.eq("import_leaves_the_dict_with_parent_as_exported", nd(d), nd(snap_p))
         if with_seq:
             ctx.eq("export_parent_sequence", str(y2.sequence), str(x.sequence))
     # schema load / dump through JSON
@@ -354,6 +366,14 @@ def strat_obj(draw, tier="quick", kinds=("collection", "collection", "collection
     if kind == "collection":
         o = draw(S.collection_spec())
         hi = o.pop("hi")
+        r_ = draw(st.integers(0, 9))
+        if r_ == 0:
+            # a collection without genes and feature collections (a window nothing is annotated in yet, or one that holds variants
+            # only): it is "empty" for queries but has its own bounds, which the serialised forms must keep
+            o["genes"], o["feature_collections"] = [], []
+            sp_empty = True
+        else:
+            sp_empty = False
     elif kind == "cds":
         o = draw(S.cds_spec(max_k=4, max_len=8, overlap_prob=6))
         o.pop("genome")
@@ -379,7 +399,9 @@ def strat_obj(draw, tier="quick", kinds=("collection", "collection", "collection
              "qualifiers": draw(S.simple_qualifiers(1))}
         hi = max(v["end"] for v in vs)
     sp = {"kind": kind, "obj": o}
-    explicit_bounds = kind == "collection" and draw(st.integers(0, 2)) == 0
+    explicit_bounds = kind == "collection" and (draw(st.integers(0, 2)) == 0 or sp_empty)
+    if kind == "collection" and sp_empty:
+        sp["memberless"] = True
     mode = draw(st.sampled_from(["none", "chrom", "chrom", "chunk", "chunk", "seqless"]))
     if mode == "seqless":
         sp["seqless"] = draw(st.sampled_from([{"id": "chr1"}, {"type": "chromosome"}, {"id": "chr1", "type": "chromosome"}, {"id": "c", "type": "contig"}]))
@@ -429,7 +451,7 @@ def strat_obj(draw, tier="quick", kinds=("collection", "collection", "collection
 def _lo(kind, o):
     if kind == "collection":
         return min([t["exons"][0][0] for g_ in o["genes"] for t in g_["transcripts"]] + [f["blocks"][0][0] for c in o["feature_collections"] for f in c["features"]]
-                   + [v["start"] for c in o["variant_collections"] for v in c["variants"]])
+                   + [v["start"] for c in o["variant_collections"] for v in c["variants"]] or [0])
     if kind == "gene":
         return min(t["exons"][0][0] for t in o["transcripts"])
     if kind == "fc":
